@@ -52,7 +52,9 @@ inductive SigOutcome
   | raised (pyClass : String)    -- anything else the library raised
   deriving DecidableEq, Repr, Inhabited
 
-/-- First general name of a SubjectAlternativeName extension, as the TPM verifier reads it. -/
+/-- The first directoryName of a SubjectAlternativeName extension (`get_values_for_type(DirectoryName)[0]`), as the
+TPM verifier reads it; `empty` = the extension carries no directoryName (the remaining constructors are no longer
+produced by the oracle since the repair of F10). -/
 inductive SanFirst
   | dirName (attrs : List (String × String))   -- (dotted oid, str(value)) in order
   | otherName                                  -- OtherName objects are returned whole
